@@ -178,7 +178,10 @@ def main():
         # dtype probes: the numbers are the same, the arrays are bool / small unsigned / int64 with fractional weights
         probes = [([1.0, 0.0], None, "boolarray", "ndarray"), ([1.0, 1.0, 0.0, 1.0, 0.0], None, "boolarray", "ndarray"),
                   ([3.0, 2.0, 1.0], [200.0, 100.0, 50.0], "ndarray", "uint8array"), ([2.0, 1.0, 3.0, 0.0], [130.0, 140.0, 1.0, 120.0], "ndarray", "uint8array"),
-                  ([3.0, 1.0, 2.0, 5.0, 4.0], [1.5, 2.5, 1.0, 1.25, 3.75], "intarray", "ndarray"), ([2.0, 1.0, 1.0, 0.0], [0.5, 0.25, 2.75, 0.5], "intarray", "ndarray")]
+                  ([3.0, 1.0, 2.0, 5.0, 4.0], [1.5, 2.5, 1.0, 1.25, 3.75], "intarray", "ndarray"), ([2.0, 1.0, 1.0, 0.0], [0.5, 0.25, 2.75, 0.5], "intarray", "ndarray"),
+                  # fractional responses with integer-typed weights (a cast of y to the weights' dtype would truncate them)
+                  ([2.5, 0.75, 1.5, 3.25], [2.0, 1.0, 3.0, 1.0], "ndarray", "intarray"), ([0.5, 0.25, 0.75], [1.0, 4.0, 2.0], "ndarray", "intarray"),
+                  ([1.5, 0.5, 2.5, 2.25, 0.125], [3.0, 1.0, 2.0, 2.0, 1.0], "list", "intarray")]
         for yv, wv, yk, wk in probes:
             for fn in fset:
                 if fn in ("median", "quantile") and wv is not None:
